@@ -1816,6 +1816,14 @@ impl Db {
 	pub fn verif_num_dirty_logs(&self) -> usize {
 		self.inner.log.num_dirty_logs()
 	}
+
+	/// Verification hook (H6): record the error of a pipeline stage the way a background worker
+	/// does when its stage function returns (`store_err`), for callers that drive the stages
+	/// themselves through the stepping API.
+	#[cfg(parity_db_verif)]
+	pub fn verif_store_err(&self, result: Result<()>) {
+		self.inner.store_err(result)
+	}
 }
 
 impl Drop for Db {
